@@ -25,6 +25,7 @@ type ClientServerStream struct {
 
 	serverSend  chan any
 	clientSend  chan any
+	trailerM    sync.Mutex // guards trailer: a cancelled call reads it while the handler may still be setting it
 	trailer     metadata.MD
 	closed      context.CancelFunc
 	closeM      sync.Mutex // guards closeErr and closeCalled
@@ -120,6 +121,8 @@ func (c *clientStream) Header() (metadata.MD, error) {
 }
 
 func (c *clientStream) Trailer() metadata.MD {
+	c.trailerM.Lock()
+	defer c.trailerM.Unlock()
 	return c.trailer
 }
 
@@ -192,6 +195,8 @@ func (s *serverStream) SendHeader(md metadata.MD) error {
 }
 
 func (s *serverStream) SetTrailer(md metadata.MD) {
+	s.trailerM.Lock()
+	defer s.trailerM.Unlock()
 	s.trailer = metadata.Join(s.trailer, md)
 }
 
